@@ -31,6 +31,7 @@ def apid(c):
     return c if c < 0x10000 else -2
 
 
+JUNK = [b'', b'', b'ter\x00xyz', b'\xff\xfe stale', b'Z' * 19, b'\x00\x00tail']      # bytes after the terminator
 NAMES = ['a', 'launchd', 'kernel_task', 'x' * 19, 'SpringBoard', 'é' * 9, 'p', 'mediaserverd', 'with space', '']
 
 
@@ -46,7 +47,7 @@ class FileGen:
 
     def tmap(self, maxn=6):
         rnd = self.rnd
-        n = rnd.choice([0, 1, 2, 3, maxn])
+        n = rnd.choice([0, 1, 2, 3, maxn, maxn, 40])
         return [{'tid': rnd.randrange(0, 5), 'pid': rnd.randrange(0, 5), 'name': rnd.choice(NAMES)} for _ in range(n)]
 
     def record(self, lead=None):
@@ -110,11 +111,14 @@ class FileGen:
         if any(b['tag'] == 'logs' for b in blocks) or rnd.random() < 0.2:
             blocks.insert(rnd.randrange(0, len(blocks) + 1), {'tag': 'strings', 'idx': strings})
         return {'ver': 3, 'tmap': self.tmap(), 'chunks': chunks, 'blocks': blocks, '_recs': recs,
-                '_fills': [self.fill(60, decoy=True), self.fill(20), self.fill(12), self.fill(9)]}
+                '_fills': [self.fill(60, decoy=True, big=True), self.fill(20, big=True), self.fill(12, big=True), self.fill(9)]}
 
-    def fill(self, maxlen, decoy=False):
+    def fill(self, maxlen, decoy=False, big=False):
         rnd = self.rnd
         parts = []
+        if big and rnd.random() < 0.08:      # a marker that straddles an I/O buffer boundary (4 / 8 / 16 KiB)
+            n = rnd.choice([4096, 8192, 16384]) - rnd.randrange(0, 24)
+            parts.append(bytes((i * 31 + 7) % 251 + 1 for i in range(n)))
         for _ in range(rnd.randrange(0, 4)):
             r = rnd.random()
             if r < 0.3:
@@ -147,7 +151,7 @@ def raw_log(l, k):
 
 
 def encode_file(f):
-    tm = [(ctid(e['tid']), cpid(e['pid']), e['name'].encode()) for e in f['tmap']]
+    tm = [(ctid(e['tid']), cpid(e['pid']), e['name'].encode(), JUNK[(e['tid'] * 7 + e['pid']) % len(JUNK)]) for e in f['tmap']]
     if f['ver'] == 2:
         return E.encode_v2(tm, f['_pad'], f['_recs'])
     blocks = []
@@ -218,7 +222,11 @@ def parse_history(files, via='kdbuf'):
     if api:
         tp, pn = api.threads_pids, api.pids_names
     out = []
-    for f in files:
+    pre = None
+    if via == 'preopen':      # every parse is OPENED first (generators created), then they are read one after the other
+        kp = KdBufParser(tp, pn)
+        pre = [kp.parse(io.BytesIO(encode_file(f)[0])) for f in files]
+    for fi, f in enumerate(files):
         blob, layout = encode_file(f)
         index = {independent_decode(r): i + 1 for i, r in enumerate(f['_recs'])}
         p = {'file': public(f)}
@@ -228,6 +236,9 @@ def parse_history(files, via='kdbuf'):
                 k2 = KdBufParser({}, {})
                 list(k2.parse(io.BytesIO(blob)))
                 p['meta'] = meta_of(k2)
+            elif via == 'preopen':
+                items = list(pre[fi])
+                p['meta'] = meta_of(kp)
             else:
                 if via == 'fresh':
                     kp = KdBufParser(tp, pn)
